@@ -36,8 +36,14 @@ def gen_case(seed, tier, index=0):
         e2.add_second_loop(rr, prog)
         prog['second']['k'] = rr.choice([0, 1, 2, 3, 10, 11])
         prog['reloads'] = []
+    rerun = False
+    if rr.random() < 0.15 and not prog.get('want_repl_input'):
+        # the run completes, then its last stage is run again (elaunch --restart <last stage> on a finished instance);
+        # one component of that stage has an input that is staged as a link / a copied directory
+        prog['linker'] = rr.choice(['link', 'copy'])
+        rerun = True
     restart_stage = None
-    if rr.random() < 0.3:
+    if rr.random() < 0.3 and not rerun:
         # the stage the second loop (or the only one) is imported in, or the one after the first loop
         cands = [lp['import_stage'] for lp in e2.loops_of(prog) if lp['import_stage'] > 0]
         cands += [prog['import_stage'] + e2.span_of(prog) + 1]
@@ -47,7 +53,7 @@ def gen_case(seed, tier, index=0):
     dur = rr.choice([0.3, 1.0, 3.0])
     plan = {'default_dur': dur}
     return {'prog': prog, 'knobs': knobs, 'plan': {}, 'dur': dur, 'sched_seed': rr.getrandbits(48),
-            'restart_stage': restart_stage, 'pauses': common.gen_pauses(rr, 0.25),
+            'restart_stage': restart_stage, 'rerun_last_stage': rerun, 'pauses': common.gen_pauses(rr, 0.25),
             'slow_wake_p': rr.choice([0.0, 0.2, 0.5]),
             # targeted placement: the operator pauses the controller just as the condition task of a seeded iteration
             # starts, so that the condition is reported while the controller sleeps
@@ -169,7 +175,23 @@ def run_case(case, schedule, opts):
         if case.get('pauses'):
             R.start_operator(case['pauses'], slow_wake_p=case.get('slow_wake_p', 0.0))
         rs = case.get('restart_stage')
-        if rs is None or rs <= 0 or rs >= len(exp._stages):
+        if case.get('rerun_last_stage'):
+            R.run_stages(exp, controller, REC, outcomes)
+            if all(o['result'] == 'ok' for o in outcomes):
+                last = len(exp._stages) - 1
+                inst = exp.instanceDirectory.location
+                del controller, comps
+                exp = e2.reload_instance(inst)
+                ctx.exp = exp
+                REC.count('fault.rerun_of_the_last_stage_of_a_finished_instance')
+                controller, comps = R.new_controller(exp, initial_stage=last)
+                ctx.controller = controller
+                again = []
+                R.run_stages(exp, controller, REC, again, first=last)
+                for o in again:
+                    o['rerun'] = True
+                    outcomes.append(o)
+        elif rs is None or rs <= 0 or rs >= len(exp._stages):
             R.run_stages(exp, controller, REC, outcomes)
         else:
             # crash + restart from a stage: the process dies after stage rs-1 completed; a new process loads the
